@@ -8,7 +8,9 @@ TRUSTED_BASE = [
     "axioms admitted: propext, Classical.choice, Quot.sound (audited with #print axioms on every run); no sorry/admit/native_decide/bv_decide/own axioms (grep, comments stripped)",
     "translator tools/extract.py (Python AST -> Lean terms); mitigated indirectly: the bridge theorem forces the translated term to EQUAL the hand model for all inputs, and the hand model's Float instance is run against the real function, so a mistranslation must coincide both with the model (everywhere) and with the code (on the correspondence inputs) to go unnoticed",
     "correspondence harness: generators, canonicalisation, stated tolerances (differential testing, not proof)",
-    "IEEE-754 arithmetic is modelled by exact reals/complex numbers: rounding, overflow, NaN are outside the theorems",
+    "IEEE-754 arithmetic is modelled by exact reals/complex numbers: rounding, overflow, NaN are outside the theorems, EXCEPT where a theorem is stated in the standard rounding model "
+    "(C12b storage rounding; C20d / C02e sums and dot products: every operation returns fl(x) with |fl x - x| <= eps |x|) - that numpy's float64 / float32 operations satisfy that model with "
+    "eps = 2^-53 / 2^-24 is IEEE 754 round-to-nearest absent overflow and (for products) underflow, and is trusted, not proved",
     "numpy/pyFFTW/numba/scipy semantics (pad, fftshift, fft2, argsort, cumsum, jit) are modelled from their documentation and exercised by the correspondence run",
 ]
 
